@@ -385,6 +385,9 @@ func (c *c11ctx) ruleR2() {
 					return
 				}
 				if sc := cc.StaticCallee(); sc != nil && sc != core {
+					if starter.Parent() == f && !afterStart[in] {
+						return // a helper called in the start phase belongs to the start phase
+					}
 					walk(sc)
 				}
 			})
